@@ -142,7 +142,7 @@ impl EventGen for Container {
                 // Special case <svg> elements with an xmlns attribute - passed through
                 // transparently, with no bbox calculation.
                 if new_el.name == "svg" && new_el.get_attr("xmlns").is_some() {
-                    return Ok((self.0.all_events(context).into(), None));
+                    return Ok((OutputList::raw(self.0.all_events(context)), None));
                 }
                 new_el.eval_attributes(context)?;
                 if context.config.add_metadata {
@@ -154,7 +154,7 @@ impl EventGen for Container {
                 events.push(OutputEvent::Start(new_el.clone()));
                 let (evlist, mut bbox) = if inner_text.is_some() {
                     // inner_text implies no processable events; use as-is
-                    (inner_events.into(), None)
+                    (OutputList::raw(inner_events), None)
                 } else {
                     process_events(inner_events, context)?
                 };
@@ -557,7 +557,7 @@ pub fn process_events(
             // if this is the outermost SVG element, we mark the entire input as a 'real' SVG document
             context.real_svg = true;
         }
-        return Ok((input.into(), None));
+        return Ok((OutputList::raw(input), None));
     }
     let mut output = OutputList::new();
     let mut idx_output = BTreeMap::<OrderIndex, OutputList>::new();
